@@ -136,7 +136,13 @@ func (k SettlementKeeper) tryPayout(ctx sdk.Context, tenantId uint64, utxr *type
 					contractAddr,
 					common.Address(treasuryAddr),
 				)
-				_, err = k.erc20k.ConvertERC20(ctx, msg)
+				var res *erc20types.MsgConvertERC20Response
+				res, err = k.erc20k.ConvertERC20(ctx, msg)
+				if err == nil && res == nil {
+					// the erc20 module answers with neither a result nor an error when the token's contract no longer exists
+					// (it drops the token pair and converts nothing): nobody was paid
+					err = fmt.Errorf("conversion of %s for %s did not take place", amount, recipientCosmosAddr)
+				}
 			} else {
 				err = k.bk.SendCoins(ctx, treasuryAddr, recipientCosmosAddr, sdk.NewCoins(amount))
 			}
